@@ -12,6 +12,8 @@ type Stats struct {
 	Bound       int   // completed deviation bound
 	Capped      bool  // an execution/node cap was hit: exploration of this scenario is incomplete
 	Diverged    int64
+	Retried     int64 // replays repeated because the prefix did not line up (kernel-chosen ports)
+	Resynced    int64 // replays accepted without the signature check
 	Horizon     int64
 	ByOutcome   [5]int64
 	CostHist    [8]int64 // executions by deviation cost
@@ -26,6 +28,8 @@ func (a *Stats) Add(b Stats) {
 	}
 	a.Capped = a.Capped || b.Capped
 	a.Diverged += b.Diverged
+	a.Retried += b.Retried
+	a.Resynced += b.Resynced
 	a.Horizon += b.Horizon
 	for i := range a.ByOutcome {
 		a.ByOutcome[i] += b.ByOutcome[i]
@@ -63,6 +67,26 @@ func (e *Explorer) Explore() bool {
 			return true
 		}
 		x := e.RunOne(f.prefix, f.sig)
+		if x.Outcome == Diverged && len(f.prefix) > 0 {
+			// The option sets of a replayed prefix differ from the parent's. The only nondeterminism the harness does not
+			// own is the kernel's choice of ephemeral ports (e.g. a UDP socket and a TCP listener of two concurrent runs
+			// receiving the same number adds a lookup, hence scheduling points). Retry; if the prefix still does not
+			// line up, replay the choices without the signature check: the execution is still a real execution of the
+			// implementation and is judged by the oracle like any other, only its position in the tree is approximate.
+			for k := 0; k < 2 && x.Outcome == Diverged; k++ {
+				e.Stats.Retried++
+				x = e.RunOne(f.prefix, f.sig)
+			}
+			if x.Outcome == Diverged {
+				e.Stats.Resynced++
+				x = e.RunOne(f.prefix, nil)
+			}
+			if x.Outcome == Diverged {
+				e.Stats.Capped = true // the choices themselves no longer apply: this subtree is skipped and the run is not exhaustive
+				e.Stats.Diverged++
+				continue
+			}
+		}
 		e.Stats.Executions++
 		e.Stats.Steps += int64(x.Steps)
 		e.Stats.ByOutcome[x.Outcome]++
